@@ -146,7 +146,7 @@ static void* concMain(void* a) {
   while (!__atomic_load_n(&g_go, RLX)) sched_yield();
   for (int o = 0; o < t.nops; ++o) {
     int k = (int)r.below(100), i = (int)r.below((u64)t.P), j = (int)r.below((u64)t.P);
-#ifndef __SANITIZE_THREAD__
+#if !defined(__SANITIZE_THREAD__) && !defined(VERIF_NO_PRIVATE)
     // evidence only (not in the TSan build, where this volatile read would add synchronisation): was the String payload shared when the operation began?
     if (t.s[i].data->ref > 1) ++t.sharedOps;
 #endif
